@@ -137,6 +137,12 @@ func (e *Encoder) encode(rv reflect.Value) error {
 		}
 	case reflect.Array, reflect.Slice:
 		if rv.Type().Elem().Kind() == reflect.Uint8 {
+			if rk == reflect.Array {
+				// Bytes panics on unaddressable array (and on any array before go1.19) -> copy
+				bv := make([]byte, rv.Len())
+				reflect.Copy(reflect.ValueOf(bv), rv)
+				return e.encodeByteArray(bv)
+			}
 			return e.encodeByteArray(rv.Bytes())
 		} else if t, ok := rv.Interface().(Tuple); ok {
 			return e.encodeTuple(t)
@@ -678,6 +684,9 @@ func getStructTags(ptr reflect.Value) map[string]int {
 	l := t.NumField()
 	numTags := 0
 	for i := 0; i < l; i++ {
+		if t.Field(i).PkgPath != "" {
+			continue // skip unexported names
+		}
 		field := t.Field(i).Tag.Get("pickle")
 		if field != "" {
 			m[field] = i
